@@ -59,6 +59,8 @@ let parse_case (line : string) : case =
         let id = int_of_string id in
         let old = try List.assoc id !progs with Not_found -> [] in
         progs := (id, old @ ds) :: List.remove_assoc id !progs; go r'
+      | "BR" :: _ :: _ :: r -> go r   (* savepen / save brackets around a handler's drawing: balanced, and the
+                                         handlers neither clip, translate nor mask, so they change nothing (C02_brackets_neutral) *)
       | (("RA" | "FA" | "GA" | "FC") as kind) :: id :: n :: r ->
         let racts = (match kind with "RA" -> racts | "FA" -> facts | "FC" -> fcacts | _ -> gacts) in
         let n = int_of_string n in
